@@ -7,7 +7,9 @@ from ..core import Report
 from ..model import BIJ, DIST, UNWRAPPABLE, Program
 from ..taint import FnTaint, ann_is_static
 
-SKIP_METHODS = {"__init__", "__check_init__", "__post_init__", "__init_subclass__"}
+# (__eq__ / __hash__ / __repr__ run on concrete Python objects - jit's cache lookup, printing - never under a trace)
+SKIP_METHODS = {"__init__", "__check_init__", "__post_init__", "__init_subclass__", "__eq__", "__ne__", "__hash__",
+                "__repr__", "__str__"}
 EXTRA_CLASSES = ["flowjax.bijections.bijection._VectorizedBijection",
                  "flowjax.bisection_search.AutoregressiveBisectionInverter",
                  "flowjax.train.losses.MaximumLikelihoodLoss", "flowjax.train.losses.ContrastiveLoss",
